@@ -155,6 +155,79 @@ def powerInteger (d : Int) (n : Nat) : Option Int :=
 
 end BigDec
 
+/-! ### value-semantic pool machine (alias chains)
+
+A chain is a list of method calls over a small pool of `BigDec` VARIABLES.  A non-mutating method binds its
+result to `pool[dst]` (a fresh object in Go); a `…Mut` method updates its receiver `pool[r]` in place and its
+return value is dropped.  The model is value-semantic: one step changes ONE variable.  If a Go method returned
+storage shared with an operand, a later in-place update would change two variables and the engine's replay of
+the chain on live objects would disagree with this machine (and with the engine's own `big.Rat` reference). -/
+namespace Chain
+
+inductive COp where
+  | add | sub | mul | quo | mulTruncate | mulRoundUp | quoTruncate | quoRoundUp
+  | neg | abs | ceil | clone | truncateDec | chopPrecision | powerInteger
+  | addMut | subMut | mulMut | quoMut | quoTruncateMut | quoRoundUpMut | quoRoundUpNextIntMut
+  | negMut | absMut | ceilMut | chopPrecisionMut | powerIntegerMut
+deriving DecidableEq, Repr
+
+/-- a `…Mut` method: the target variable is the receiver -/
+def COp.isMut : COp → Bool
+  | .addMut | .subMut | .mulMut | .quoMut | .quoTruncateMut | .quoRoundUpMut | .quoRoundUpNextIntMut
+  | .negMut | .absMut | .ceilMut | .chopPrecisionMut | .powerIntegerMut => true
+  | _ => false
+
+/-- the argument is a pool variable (otherwise a scalar: precision / power, or unused) -/
+def COp.binary : COp → Bool
+  | .add | .sub | .mul | .quo | .mulTruncate | .mulRoundUp | .quoTruncate | .quoRoundUp
+  | .addMut | .subMut | .mulMut | .quoMut | .quoTruncateMut | .quoRoundUpMut | .quoRoundUpNextIntMut => true
+  | _ => false
+
+/-- the value bound to the target: the method's result, for `…Mut` the receiver after the call.
+`PowerIntegerMut(0)` returns a fresh one and leaves the receiver alone (Go: `if power == 0 { return OneBigDec() }`). -/
+def COp.eval (op : COp) (x y : Int) : Option Int :=
+  match op with
+  | .add | .addMut => BigDec.add x y
+  | .sub | .subMut => BigDec.sub x y
+  | .mul | .mulMut => BigDec.mul x y
+  | .quo | .quoMut => BigDec.quo x y
+  | .mulTruncate => BigDec.mulTruncate x y
+  | .mulRoundUp => BigDec.mulRoundUp x y
+  | .quoTruncate | .quoTruncateMut => BigDec.quoTruncate x y
+  | .quoRoundUp => BigDec.quoRoundUp x y
+  | .quoRoundUpMut => BigDec.quoRoundUpMut x y
+  | .quoRoundUpNextIntMut => BigDec.quoRoundUpNextIntMut x y
+  | .neg | .negMut => some (-x)
+  | .abs | .absMut => some (Int.ofNat x.natAbs)
+  | .ceil | .ceilMut => BigDec.ceil x
+  | .clone => some x
+  | .truncateDec => BigDec.truncateDec x
+  | .chopPrecision | .chopPrecisionMut => BigDec.chopPrecision x y.toNat
+  | .powerInteger => BigDec.powerInteger x y.toNat
+  | .powerIntegerMut => if y = 0 then some x else BigDec.powerInteger x y.toNat
+
+/-- the variable a step writes -/
+def target (op : COp) (dst r : Nat) : Nat := if op.isMut then r else dst
+
+/-- one call: `pool[dst] := pool[r].op(pool[a])` (binary) / `pool[r].op(a)` (scalar); `none` = the call panics. -/
+def step (pool : List Int) (op : COp) (dst r : Nat) (a : Int) : Option (List Int) :=
+  match pool[r]?, (if op.binary then pool[a.toNat]? else some a) with
+  | some x, some y =>
+    match op.eval x y with
+    | some v => if target op dst r < pool.length then some (pool.set (target op dst r) v) else none
+    | none => none
+  | _, _ => none
+
+/-- run the steps; `Sum.inr i` = step `i` panicked (the chain stops there). -/
+def run : List Int → List (COp × Nat × Nat × Int) → Nat → List Int ⊕ Nat
+  | pool, [], _ => .inl pool
+  | pool, (op, dst, r, a) :: rest, i =>
+    match step pool op dst r a with
+    | some pool' => run pool' rest (i + 1)
+    | none => .inr i
+
+end Chain
+
 /-! ### LegacyDec operations (raw 10^18), cosmossdk.io/math -/
 namespace Dec
 
